@@ -35,6 +35,15 @@ _DIR = None
 _FILES = {}
 
 
+def _reset_files() -> None:
+    global _DIR
+    _DIR = None
+    _FILES.clear()
+
+
+core.AFTER_FORK.append(_reset_files)
+
+
 def pattern(n: int) -> bytes:
     """Position-identifying content over bytes >= 0x80."""
     return bytes(0x80 + ((i * 37 + (i // 128) * 11 + (i // 16384)) % 128) for i in range(n))
